@@ -85,3 +85,221 @@ def gen_case(r):
         k = r.choice([1, 1, 2, 3, 5, 8]) if sticky else 1
         sched += [v] * k
     return {'n': n, 'npool': npool, 'budget': budget, 'rets': rets, 'prog': prog, 'sched': sched[:budget + 10]}
+
+
+# deterministic witnesses = the schedules of the Coq refutations (Proofs/C26Proofs.v wd_*, wc_*, wf_*, wo_*, wb_*), padded
+def _pad(l, n=30):
+    return l + [0] * n
+
+
+WITNESSES = [
+    # (name, case, expected verdict of judge_tt, finding key or None, run under ASan too?)
+    ('dtor', {'n': 1, 'npool': 1, 'budget': 30, 'rets': [], 'prog': ['X'], 'sched': _pad([0] * 5 + [1] * 6 + [0] * 7)}, 10, KEY_DTOR, True),
+    ('cancel', {'n': 1, 'npool': 1, 'budget': 30, 'rets': [], 'prog': ['C'], 'sched': _pad([0] * 7 + [1] * 3 + [0] * 7)}, 9, KEY_CANCEL, False),
+    ('false', {'n': 2, 'npool': 2, 'budget': 40, 'rets': [0], 'prog': [], 'sched': _pad([1] + [0] * 13 + [0] * 3 + [1] * 3 + [0, 1] + [0] * 20)}, 12, KEY_FALSE, False),
+    ('wrapper-clear-uaf', {'n': 2, 'npool': 2, 'budget': 40, 'rets': [0], 'prog': [], 'sched': _pad([1] + [0] * 13 + [0] * 3 + [1] * 3 + [0] + [0] * 3 + [1] + [0] * 20)}, 212, KEY_FALSE, True),
+    ('bad-function-call', {'n': 1, 'npool': 1, 'budget': 30, 'rets': [], 'prog': ['X'], 'sched': _pad([0] * 3 + [1] * 6 + [0] * 10)}, 110, KEY_DTOR, False),
+]
+MASK_KEYS = [(1, KEY_CANCEL, 'the functor started after cancel() had returned'),
+             (2, KEY_DTOR, 'the closure stored in func was accessed / func was called after ~TimedTask had returned'),
+             (4, KEY_FALSE, 'the functor started after an earlier invocation had returned false')]
+
+
+def k_small_time_buffer():
+    """kSmallTimeBuffer as written in /repo/dispenso/timed_task.cpp, in ns (None if the line is gone)"""
+    try:
+        txt = open(os.path.join(dv.REPO, 'dispenso', 'timed_task.cpp')).read()
+    except OSError:
+        return None
+    mm = re.search(r'constexpr\s+double\s+kSmallTimeBuffer\s*=\s*([0-9.eE+-]+)\s*;', txt)
+    if not mm or 'timeRemaining < kSmallTimeBuffer' not in txt:
+        return None
+    return float(mm.group(1)) * 1e9
+
+
+def report(ctx, v, c, o, where):
+    """turn one judge_tt verdict into violations / known findings / broken entries; returns the base verdict"""
+    base = v % 100
+    ln = line_of(c)
+    if base == 2:
+        ctx.violation('%s: the property fails on the implementation\'s own trace outside the domains of the known findings: %s -> %s' % (where, ln[:200], o[:400]),
+                      {'case': ln, 'output': o, 'cmd': 'echo "%s" | build/harness/h_timedtask-*' % ln})
+    elif base == 1:
+        ctx.broken.append('correspondence L(C26) %s: real trace differs from the model on %s -> %s' % (where, ln[:160], o[:240]))
+    elif base >= 8:
+        for bit, key, what in MASK_KEYS:
+            if (base - 8) & bit:
+                ctx.violation('%s (%s): %s -> %s' % (what, where, ln[:200], o[:300]), {'finding_key': key, 'case': ln, 'output': o})
+    return base
+
+
+def run_witnesses(ctx, exe, exe_asan):
+    """replay the Coq refutation schedules on the real code (normal build: lockstep judge; ASan build: the UAF itself)"""
+    lines = [line_of(c) for _, c, _, _, _ in WITNESSES]
+    outs = ls_common.run_cases(exe, lines, jobs=len(lines))
+    terms, kept = [], []
+    for (name, c, exp, key, _), o in zip(WITNESSES, outs):
+        p = parse(o)
+        if p is None or 'error' in p:
+            ctx.broken.append('witness %s: harness output unreadable: %s' % (name, (o or '')[:200]))
+            continue
+        terms.append(term_of(c, p))
+        kept.append((name, c, exp, key, o))
+    verdicts = ls_common.judge_parallel(ctx, IMPORTS, 'judge_tt', terms) if terms else []
+    wres = {}
+    if verdicts is None:
+        ctx.broken.append('witness replay: the model no longer evaluates')
+        verdicts = []
+    for v, (name, c, exp, key, o) in zip(verdicts, kept):
+        wres[name] = v
+        if v % 100 == exp % 100:
+            report(ctx, v, c, o, 'witness ' + name)          # known finding reproduced -> KNOWN-FINDING line (or VIOLATION if not registered)
+        elif v % 100 == 0:
+            ctx.cov.setdefault('witness_no_longer_reproduces', []).append(name)   # e.g. after a fix: nothing to report
+        else:
+            report(ctx, v, c, o, 'witness ' + name)
+    ctx.cov['witness_verdicts'] = wres
+    # ASan build: the same schedules must end in a heap-use-after-free report inside dispenso's own code / the functor
+    asan = {}
+    if exe_asan:
+        for name, c, exp, key, use_asan in WITNESSES:
+            if not use_asan:
+                continue
+            env = dict(os.environ, ASAN_OPTIONS='detect_leaks=0:abort_on_error=0:halt_on_error=1')
+            rc, out = dv.sh([exe_asan], inp=line_of(c) + '\n', timeout=120, env=env)
+            uaf = 'heap-use-after-free' in out
+            where = re.findall(r'#\d+ 0x[0-9a-f]+ in (.*?) (/\S+?(?:timed_task_impl\.h|timed_task\.h|timed_task\.cpp|h_timedtask\.cpp):\d+)', out)
+            freed = re.search(r'freed by thread T\d+ here:(.*?)previously allocated', out, flags=re.S)
+            freed_at = re.findall(r'(/\S+?(?:timed_task_impl\.h|timed_task\.h|timed_task\.cpp):\d+|dispenso::TimedTask::~TimedTask\(\))', freed.group(1)) if freed else []
+            asan[name] = {'heap_use_after_free': uaf, 'access_at': [w[1].replace(dv.REPO, '') for w in where[:2]],
+                          'freed_at': [f.replace(dv.REPO, '') for f in freed_at[:2]],
+                          'status_line': next((l[-60:] for l in out.split('\n') if l.startswith('steps')), '')}
+            if not uaf and wres.get(name, 0) % 100 == exp % 100:
+                ctx.broken.append('witness %s: the lockstep judge reports the use-after-free window but the ASan build saw no heap-use-after-free: %s' % (name, out[-300:]))
+    ctx.cov['asan_witnesses'] = asan
+    return wres
+
+
+def run_lockstep(ctx, exe):
+    r = ctx.rng
+    n = 300 if ctx.quick else 6000
+    cases = [gen_case(r) for _ in range(n)]
+    outs = ls_common.run_cases(exe, [line_of(c) for c in cases])
+    terms, kept, distinct = [], [], set()
+    for c, o in zip(cases, outs):
+        p = parse(o)
+        if p is None or 'error' in p:
+            ctx.broken.append('lockstep harness output unreadable for %s: %s' % (line_of(c)[:160], (o or '')[:200]))
+            continue
+        terms.append(term_of(c, p))
+        kept.append((c, p, o))
+        if len(p['steps']) > c['npool'] + 2 + 4:
+            distinct.add(o.split('| status')[0])
+    verdicts = ls_common.judge_parallel(ctx, IMPORTS, 'judge_tt', terms, shard_size=60 if ctx.quick else 120)
+    if verdicts is None:
+        ctx.broken.append('correspondence L(C26): the model no longer evaluates')
+        return
+    hist, obs = {}, {'bad_function_call': 0, 'wrapper_clear_use_after_free': 0}
+    for v, (c, p, o) in zip(verdicts, kept):
+        base = report(ctx, v, c, o, 'lockstep')
+        hist[base] = hist.get(base, 0) + 1
+        if (v // 100) & 1: obs['bad_function_call'] += 1
+        if (v // 100) & 2: obs['wrapper_clear_use_after_free'] += 1
+    ctx.cov['evaluations'] += len(cases)
+    ctx.cov['distinct_nontrivial'] += len(distinct)
+    ctx.cov['traces_validated_against_impl'] += sum(k for b, k in hist.items() if b == 0 or b >= 8)
+    ctx.cov['verdict_histogram'] = {'agree_property_holds': hist.get(0, 0), 'differ': hist.get(1, 0), 'violation_outside_known_domains': hist.get(2, 0),
+                                    'agree_start_after_cancel_known': sum(k for b, k in hist.items() if b >= 8 and (b - 8) & 1),
+                                    'agree_access_after_dtor_known': sum(k for b, k in hist.items() if b >= 8 and (b - 8) & 2),
+                                    'agree_start_after_false_known': sum(k for b, k in hist.items() if b >= 8 and (b - 8) & 4)}
+    ctx.cov['observations_beyond_property_text'] = obs
+    ctx.cov['status_histogram'] = {k: sum(1 for _, p, _ in kept if p['status'] == v) for k, v in STATUS.items()}
+    ctx.sample({'case': line_of(cases[0])[:200], 'impl': outs[0][:400]})
+
+
+def run_native(ctx, exe):
+    """real scheduler thread, real clock: one-sided observations (never earlier than scheduled - eps; count reaches timesToRun)"""
+    cfgs = []
+    reps = 1 if ctx.quick else 10
+    for _ in range(reps):
+        for steady in (0, 1):
+            for pool in (0, 1):
+                cfgs.append((3000, 2000, 3, steady, pool))
+                cfgs.append((1500, 700, 4, steady, pool))
+        cfgs.append((0, 1000, 2, 1, 0))          # due immediately: addTimedTask kicks it off on the caller's thread
+        cfgs.append((200, 0, 1, 0, 1))           # single shot
+    lines = ['nat %d %d %d %d %d %d' % (d, per, n, st, pl, d // 1000 + (n * per) // 1000 + 80) for d, per, n, st, pl in cfgs]
+    outs = ls_common.run_cases(exe, lines, jobs=4)
+
+    def term(cfg, o):
+        t = o.split()
+        if len(t) < 6 or t[0] != 'nat':
+            return None
+        ts = [int(x) for x in t[6:]]
+        return '(%d, %d, %d, %s, %d, %d, %s)' % (EPS_NS, cfg[1] * 1000, cfg[2], 'true' if cfg[3] else 'false', int(t[2]), int(t[4]),
+                                                 dv.coq_list([dv.zlit(x) for x in ts])), ts
+    terms, kept = [], []
+    for cfg, l, o in zip(cfgs, lines, outs):
+        tt = term(cfg, o)
+        if tt is None:
+            ctx.broken.append('native timing harness output unreadable: %s -> %s' % (l, (o or '')[:200]))
+            continue
+        terms.append(tt[0])
+        kept.append((cfg, l, o, tt[1]))
+    res = pf_common.coq_judge(ctx, 'native', 'From DV Require Import Model.TimedTaskModel Model.C26Check.', [('judge_native', terms)])
+    if res is None:
+        ctx.broken.append('correspondence D(C26): judge_native no longer evaluates')
+        return
+    slow = []
+    for v, (cfg, l, o, ts) in zip(res[0], kept):
+        if v == 2:
+            ctx.violation('native run: an invocation started earlier than its scheduled time - 10 us, or more than timesToRun invocations: %s -> %s' % (l, o),
+                          {'case': l, 'output': o, 'cmd': 'echo "%s" | build/harness/h_timedtask-*' % l})
+        elif v == 3:
+            slow.append((cfg, l))
+    # "count == timesToRun after a long-enough wait": retry the slow ones once with a 20x longer wait before complaining
+    still = []
+    if slow:
+        lines2 = [' '.join(l.split()[:6] + [str(int(l.split()[6]) * 20)]) for _, l in slow]
+        outs2 = ls_common.run_cases(exe, lines2, jobs=4)
+        for (cfg, _), l2, o2 in zip(slow, lines2, outs2):
+            t = o2.split()
+            if len(t) < 6 or int(t[2]) != cfg[2] or int(t[4]) != cfg[2]:
+                still.append((l2, o2))
+    for l2, o2 in still:
+        ctx.violation('native run: after a generous wait calls() / the number of invocations differs from timesToRun: %s -> %s' % (l2, o2),
+                      {'case': l2, 'output': o2, 'cmd': 'echo "%s" | build/harness/h_timedtask-*' % l2})
+    firsts = [ts[0] for _, _, _, ts in kept if ts]
+    ctx.cov['native'] = {'cases': len(lines), 'slow_first_attempt': len(slow), 'first_start_minus_requested_ns_min': min(firsts) if firsts else None,
+                         'first_start_minus_requested_ns_median': sorted(firsts)[len(firsts) // 2] if firsts else None,
+                         'fired_early_within_eps (observation, allowed by design)': sum(1 for x in firsts if -EPS_NS <= x < 0)}
+    ctx.cov['evaluations'] += len(lines)
+    ctx.cov['distinct_nontrivial'] += len(set(lines))
+    ctx.sample({'native': list(zip(lines[:3], outs[:3]))})
+
+
+def run(ctx):
+    ctx.prove(models=['Model/C26Check.v'])
+    eps_src = k_small_time_buffer()
+    ctx.cov['kSmallTimeBuffer_ns_in_source'] = eps_src
+    if eps_src is None:
+        ctx.broken.append('contract tie: the run loop\'s due-test `timeRemaining < kSmallTimeBuffer` / the constant is no longer found in dispenso/timed_task.cpp')
+    elif eps_src > EPS_NS:
+        ctx.broken.append('contract tie: kSmallTimeBuffer = %g ns in the source exceeds the eps = %d ns for which "not before first - eps" is claimed' % (eps_src, EPS_NS))
+    exe = dv.build_harness('h_timedtask', ['h_timedtask.cpp'])
+    try:
+        exe_asan = dv.build_harness('h_timedtask_asan', ['h_timedtask.cpp'], extra_flags=['-fsanitize=address', '-fno-omit-frame-pointer'],
+                                    lib_flags=['-fsanitize=address', '-fno-omit-frame-pointer'])
+    except RuntimeError as e:
+        exe_asan = None
+        ctx.broken.append('ASan build of the harness failed: ' + str(e)[-300:])
+    ctx.phase('build')
+    run_witnesses(ctx, exe, exe_asan)
+    ctx.phase('witnesses')
+    run_lockstep(ctx, exe)
+    ctx.phase('lockstep')
+    run_native(ctx, exe)
+    ctx.phase('native')
+    ctx.cov['rule'] = ('lockstep: timesToRun 0-4 x 1-3 pool threads x functor return values x user programs over cancel/detach/calls/~TimedTask x random (sticky) schedules, '
+                       'one fork per case under vsched; non-trivial = more steps than thread starts + 4; distinct = distinct (trace, results) strings.  '
+                       'native: delay/period/count/steady/normal x ThreadPool/ImmediateInvoker, real scheduler thread; distinct = distinct configurations')
